@@ -84,8 +84,9 @@ def check_description(run, i, decls, nvariants, tmpdir=None):
 
 
 def probe_k4(run):
-    """Known finding K4: executed on every run so that the line appears while the defect exists
-    and disappears once it is gone; a different misbehaviour is still a violation."""
+    """Former known finding K4 (repaired in /repo): user types named with a builtin-type prefix.
+    The probe stays: should the defect come back, the classification key is no longer listed in
+    known_findings.txt and is therefore reported as a violation."""
     probes = [PC.k4_witness()]
     r = run.rng("k4")
     for pre in ["u8x", "str_t", "f32vec", "i16le", "structure", "f64_", "u1a", "string"]:
